@@ -120,9 +120,9 @@ def safe_translate(p):
 
 # ============================================================================ trees
 DIRN = [".git", ".svn", "CVS", ".hg", ".bzr", "__pycache__", ".tox", ".eggs", "a.egg", "pkg", "tests", "test", "latest", "src", "sub",
-        "sub dir", ".hidden", "mod.py", "x[1]", "dür", "build"]
+        "sub dir", ".hidden", "mod.py", "x[1]", "dür", "build", "gen\\d", "old\\src"]     # a backslash is an ordinary character of a POSIX name (seeded change C11-m12)
 FILN = ["a.py", "b.pyw", "c.txt", "test_x.py", "contest.py", ".hidden.py", "setup.cfg", "noext", "d.PY", "e.py.bak", "x.egg", "w[1].py",
-        "sp ace.py", "ü.py", ".py", "py", "__init__.py", "conftest.py", "m.pyw"]
+        "sp ace.py", "ü.py", ".py", "py", "__init__.py", "conftest.py", "m.pyw", "cfg\\x.py", "settings.py.in"]
 
 
 def gen_tree(rng, small=False):
